@@ -43,3 +43,51 @@ pub fn current_num_threads() -> usize {
 pub fn current_thread_index() -> Option<usize> {
     None
 }
+
+#[cfg(test)]
+mod state_adaptor_tests {
+    use crate::prelude::*;
+    use std::sync::atomic::{AtomicUsize, Ordering};
+
+    #[test]
+    fn map_init_keeps_positions_and_bounds_inits() {
+        let inits = AtomicUsize::new(0);
+        let v: Vec<u32> = (0..50).collect();
+        let out: Vec<u32> = v
+            .par_iter()
+            .map_init(
+                || {
+                    inits.fetch_add(1, Ordering::SeqCst);
+                    Vec::<u32>::new()
+                },
+                |seen, &x| {
+                    seen.push(x);
+                    // a state only ever serves increasing positions
+                    assert!(seen.windows(2).all(|w| w[0] < w[1]));
+                    (x % 3 == 0).then_some(x * 2)
+                },
+            )
+            .flatten()
+            .collect();
+        assert_eq!(out, (0..50).filter(|x| x % 3 == 0).map(|x| x * 2).collect::<Vec<_>>());
+        let n = inits.load(Ordering::SeqCst);
+        assert!((1..=50).contains(&n));
+    }
+
+    #[test]
+    fn map_with_and_for_each_variants() {
+        let v: Vec<u32> = (0..20).collect();
+        let out: Vec<u32> = v.par_iter().map_with(100u32, |base, &x| *base + x).collect();
+        assert_eq!(out, (100..120).collect::<Vec<_>>());
+        let total = AtomicUsize::new(0);
+        v.par_iter().for_each_with(1usize, |one, _| {
+            total.fetch_add(*one, Ordering::SeqCst);
+        });
+        v.par_iter().for_each_init(|| 1usize, |one, _| {
+            total.fetch_add(*one, Ordering::SeqCst);
+        });
+        assert_eq!(total.load(Ordering::SeqCst), 40);
+        let nested: Vec<u32> = vec![vec![1u32, 2], vec![], vec![3]].into_par_iter().flatten_iter().collect();
+        assert_eq!(nested, vec![1, 2, 3]);
+    }
+}
